@@ -33,6 +33,7 @@ package freelist
 //@ func (cp *FreeList) Close() (err error)  property C02 C17
 //@   exclusive Close runs after all users of the freelist have stopped (Store.Close contract, C17)
 //@   preserves cp
+//@   local requires @pool-size len(cp.blockPool) < (1 << 40)
 //@   modifies cp.blockPool, cp.outstandingWork, cp.$pending, cp.file.$open
 //@   assert at before call (*os.File).Close: @C17-flush-before-close event("call:freelist.FreeList.Flush") == 1
 //@   ensures @C17-file-closed !cp.file.$open
@@ -43,6 +44,7 @@ package freelist
 // file opened under the flush lock.
 //@ func (cp *FreeList) ToGC() (path string, err error)  property C03 C13
 //@   preserves cp
+//@   local requires @pool-size len(cp.blockPool) < (1 << 40)
 //@   modifies cp.blockPool, cp.outstandingWork, cp.$pending, cp.file, cp.file.$open
 //@   ghost var gexists bool = false
 //@   ghost at after call os.IsNotExist#0: gexists = !$r0
@@ -71,10 +73,11 @@ package freelist
 //@ func (cp *FreeList) flushBlock(blk types.Block) (work types.Work, err error)  property C13
 //@   holds cp.flushLock
 //@   ensures @work err == nil ==> work == 12
-//@   ensures @two-writes event("call:(*bufio.Writer).Write") <= 2 && (err == nil ==> event("call:(*bufio.Writer).Write") == 2)
+//@   internal ensures @two-writes event("call:(*bufio.Writer).Write") <= 2 && (err == nil ==> event("call:(*bufio.Writer).Write") == 2)
 
 //@ func (cp *FreeList) Flush() (work types.Work, err error)  property C13
 //@   preserves cp
+//@   local requires @pool-size len(cp.blockPool) < (1 << 40)
 //@   unreachable return#2: dead code - blocks is the pool that was just found non-empty
 //@   modifies cp.blockPool, cp.outstandingWork
 //@   abstract gap GAP-3: pool+file contents implement the ghost multiset
